@@ -758,6 +758,55 @@ def tri_random(rng, n, kinds=("b", "t11", "t11", "t00")):
         yield ("tri-rand", ops)
 
 
+def dag_edges(r):
+    """acyclic graphs over 6-9 randomly named nodes: random forward edges / a chain with shortcuts (unequal path lengths: tuples derived early are reached again
+    along longer paths several rounds later) / dense; shuffled; arriving in one or two rounds"""
+    m = r.range(6, 9)
+    dom = list(range(1, m + 1))
+    perm = r.shuffle(dom)
+    edges = []
+    variant = r.below(4)
+    if variant == 0:
+        for _ in range(r.range(7, 12)):
+            a = r.below(m - 1); b = r.range(a + 1, min(m - 1, a + r.range(1, 4)))
+            if (perm[a], perm[b]) not in edges: edges.append((perm[a], perm[b]))
+    elif variant == 1:
+        for a in range(m):
+            for b in range(a + 1, m):
+                if r.chance(2, 5): edges.append((perm[a], perm[b]))
+    else:
+        edges = [(perm[i], perm[i + 1]) for i in range(r.range(4, m - 1))]
+        for _ in range(r.range(2, 6)):
+            a = r.below(m - 1); b = r.range(a + 1, m - 1)
+            if (perm[a], perm[b]) not in edges: edges.append((perm[a], perm[b]))
+    edges = r.shuffle(edges) or [(1, 2)]
+    cut = len(edges) if len(edges) < 2 or r.chance(1, 2) else r.range(1, len(edges) - 1)
+    return dom, edges, cut
+
+
+def tri_dag(rng, n):
+    """larger acyclic graphs arriving in one or two rounds: ONE merge call then runs many rounds of its internal closure loop, with candidates that were derived
+    several rounds earlier reached again along longer paths (the `can_add` look-up caches are exercised here only); full snapshots, model and contract oracle"""
+    for i in range(n):
+        r = rng.fork(f"g{i}")
+        kind = r.choice(["b", "b", "b", "t00"])      # (t11: the delta reverse maps of finding F23 would mask everything else)
+        dom, edges, cut = dag_edges(r)
+        key = () if kind == "b" else (1,)
+        rounds = [[key + e for e in edges[:cut]]] + ([[key + e for e in edges[cut:]]] if cut < len(edges) else [])
+        yield ("tri-dag", tri_history(kind, rounds, dom))
+
+
+def tri_dag_bulk(rng, n):
+    """the same graphs in bulk, binary provider, observed once at the end (iter_all of total): judged by the closure directly (each tuple exactly once);
+    histories that fail go through the full contract oracle and become replays.  Implementation vs property only - the model is not run on these."""
+    for i in range(n):
+        r = rng.fork(f"G{i}")
+        dom, edges, cut = dag_edges(r)
+        ops = ["trp mk o b"] + [f"trp add o {a} {b}" for a, b in edges[:cut]] + ["trp merge o"]
+        if cut < len(edges): ops += [f"trp add o {a} {b}" for a, b in edges[cut:]] + ["trp merge o"]
+        yield edges, ops + ["trp merge o", "trp all o total n"]
+
+
 def tri_raw(rng, n):
     """histories outside the engine's discipline (raw inserts of tuples already in total/delta, restart with a non-empty delta):
     no contract, but model and code must still agree line by line"""
@@ -792,6 +841,7 @@ def tri_scenarios(tier, rng):
     yield from tri_fixed()
     yield from tri_exhaustive(4 if big else 3)
     yield from tri_random(rng.fork("rand"), 3000 if big else 300)
+    yield from tri_dag(rng.fork("dag"), 2000 if big else 300)
     yield from tri_raw(rng.fork("raw"), 1500 if big else 150)
 
 
@@ -819,6 +869,25 @@ def run_tie_c(r, tier, rng, proof):
         kn = lambda _l, i, m, ops=ops: tri_known(ops, i.split("\n"), None if m is None else m.split("\n"))
         d.case("\n".join(ops), "\n".join(io), None if mo is None else "\n".join(mo), orc, nontrivial=sum(1 for o in ops if " add " in o or " ins " in o) >= 2, known=kn)
         if hist[kind] == 1: r.sample({"kind": kind, "ops": ops, "impl": [x[:300] for x in io]})
+    # bulk stream (implementation vs the closure; see tri_dag_bulk)
+    bulk = list(tri_dag_bulk(rng.fork("dagbulk"), 200000 if tier != "quick" else 30000))
+    blines = [l for _, ops in bulk for l in ops]
+    rc2, bimpl, err2 = core.run_impl(binary, blines)
+    if len(bimpl) != len(blines):
+        r.violation({"kind": "obligation-broken", "no_longer_checks": [f"tie C bulk stream: output length {len(bimpl)} for {len(blines)} ops rc={rc2}"], "stderr": err2[-800:]}, no_input=True)
+        return False
+    pos, bad = 0, 0
+    for edges, ops in bulk:
+        n = len(ops); out = bimpl[pos + n - 1]; pos += n
+        got = [(int(a), int(b)) for a, b in re.findall(r"(\d+):(\d+)", out)]
+        cl = closure_k(set(edges), 2)
+        if set(got) != cl or len(got) != len(cl):
+            bad += 1
+            io = bimpl[pos - n:pos]
+            d.case("\n".join(ops), "\n".join(io), None, lambda _l, o, ops=ops: tri_oracle(ops, o.split("\n")) or "iter_all(total) differs from the transitive closure (each tuple once)",
+                   known=lambda _l, i, m, ops=ops: tri_known(ops, i.split("\n"), None))
+    hist["tri-dag-bulk(impl vs closure)"] = len(bulk)
+    r.cov["tiec_bulk_dag_histories"] = len(bulk); r.cov["tiec_bulk_dag_failures"] = bad
     r.cov["tiec_scenarios_per_kind"] = hist
     r.cov["tiec_op_lines"] = len(lines)
     b = dict(r.cov)
@@ -835,7 +904,9 @@ TIEC_RULE = ("tie C: histories on one (new, delta, total) triple (binary, ternar
              "contains_key(total), contains_key(delta), insert_if_not_present(new)), merge, snapshot = contains_key of every tuple over the domain on all three "
              "copies + iter_all and index_get (every key over the domain) of every view of delta, total and RelIndexCombined(total, delta); restart = "
              "next run(); exhaustive for <= 3 (thorough 4) head updates over 3 elements and every cut into rounds; PRNG histories (ring / chain / random, "
-             "1-3 keys, pauses); raw histories outside the engine discipline are compared model vs code only. Contract oracle: total' = total + delta, "
+             "1-3 keys, pauses); acyclic graphs over 6-9 nodes (random forward edges / chain with shortcuts / dense) arriving in one or two rounds, so that one merge call runs many "
+             "rounds of its closure loop: 300 (thorough 2000) with full snapshots through model and oracle, 30000 (thorough 200000) binary ones observed once at the end and judged by the closure "
+             "alone (implementation vs property; failures become replays); raw histories outside the engine discipline are compared model vs code only. Contract oracle: total' = total + delta, "
              "delta' = per-key transitive closure(total + delta + new) - total', views = selection / projection of these sets, each tuple once")
 
 
